@@ -944,6 +944,31 @@ def graph_ops_labelled(cls, kind, n, es, labels, slot=0):
     return ops
 
 
+
+# string labels whose text form needs care (no leading blank, no line break: outside C13's premise)
+TRICKY_STR = [b"#x", b"a#b", b"x y", b"two  words", b"t\tb", b"trail ", b"tr\t", b"\xc3\xa9", b"0", b"-5", b"s01", b"S1",
+              b"a,b;c", b'"q"', b"s1000000", b"s-0", b"1 2", b"x" * 300, b"\x01\x7f\xff"]
+
+
+def str_tok(b):
+    """protocol token of a string label (the canonical forms stay integers; anything else is `?<hex>`)"""
+    if not b:
+        return "0"
+    if b[:1] == b"s" and len(b) < 9:
+        try:
+            k = int(b[1:])
+            if k != 0 and abs(k) < 1000000 and b"s" + str(k).encode() == b:
+                return str(k)
+        except ValueError:
+            pass
+    return "?" + b.hex()
+
+
+def text_label_tok(rng, kind):
+    if kind == "str" and rng.random() < 0.5:
+        return str_tok(rng.choice(TRICKY_STR))
+    return gen.label_tok(rng, kind)
+
 def text_line(rng, a, b, lab, style):
     ws = lambda lo=1: "".join(rng.choice([" ", "\t"]) for _ in range(rng.randint(lo, 3)))
     lead = ws(0) if style != "plain" else ""
@@ -959,7 +984,7 @@ def text_line(rng, a, b, lab, style):
 
 def wellformed_text(rng, kind, named, n_lines=6, vmax=6):
     lines = []
-    names = ["a", "b", "c", "node7", "x_y", "Z", "0", "12"]
+    names = ["a", "b", "c", "node7", "x_y", "Z", "0", "12", "x#1", "-", "\u00e9"]
     for _ in range(rng.randint(0, n_lines)):
         r = rng.random()
         if r < 0.2:
@@ -978,7 +1003,7 @@ def wellformed_text(rng, kind, named, n_lines=6, vmax=6):
         if kind == "int":
             lab = str(rng.randint(-20, 20))
         elif kind == "str":
-            lab = rng.choice(["s1", "s22", "hello", "two words", "x", "s0", "s-3"]) if rng.random() < 0.85 else None
+            lab = rng.choice(["s1", "s22", "hello", "two words", "x", "s0", "s-3", "a#b", "#h", "in\tside", "tr  ", "\u00e9", "1 2 3", "#"]) if rng.random() < 0.85 else None
         lines.append(text_line(rng, a, b, lab, style))
     text = "\n".join(lines)
     if lines and rng.random() < 0.8:
@@ -1007,9 +1032,9 @@ def wl_C13(tier, rng):
         es = rand_edges(rng, n)
         if cls == "und":
             es = und_canon(es)
-        labels = [gen.label_tok(rng, kind) for _ in es]
+        labels = [text_label_tok(rng, kind) for _ in es]
         ops = ["mode quiet"] + graph_ops_labelled(cls, kind, n, es, labels)
-        ops += [f"roundtriptext 0 1 {kind}", "mode verbose", "dump 1", f"resize 1 {n}", "eq 0 1"]
+        ops += [f"writetext 0 {kind}", f"roundtriptext 0 1 {kind}", "mode verbose", "dump 1", f"resize 1 {n}", "eq 0 1"]
         yield ({"cls": cls, "kind": kind, "n": n, "len": len(ops)}, ops)
     # vertex indices of several decimal digits (256, 300, 4660) next to small ones
     for _ in range(scale(tier, 30, 500)):
@@ -1022,7 +1047,7 @@ def wl_C13(tier, rng):
         if cls == "und":
             es = und_canon(es)
         rng.shuffle(es)
-        labels = [gen.label_tok(rng, kind) for _ in es]
+        labels = [text_label_tok(rng, kind) for _ in es]
         ops = ["mode quiet"] + graph_ops_labelled(cls, kind, n, es, labels)
         ops += [f"writetext 0 {kind}", f"roundtriptext 0 1 {kind}"]
         for (i, j) in es:
